@@ -7,6 +7,9 @@ baseline = json.load(open('/root/.vp/BASELINE.json'))['cmd'] if os.path.exists('
 SIM = "deterministic simulation with fault injection (seeded schedules over real olric+memberlist+redcon+go-redis in one synctest bubble)"
 NOTE = "Trusts the simulator seams (simnet, simsync, fake clock) and that the mechanical source rewrite preserves olric's semantics; 1 P per run; sampling."
 claimed = {
+ "C18": dict(level="exploration", design="DESIGN.md §8 C18",
+   text="Seeded search: the very byte slices and strings handed out by Get/GetPut (embedded and cluster client) are kept with private copies while the store is churned so that their memory is reused - overwrites, deletes, table-recycling fills, compaction and idle-table release on the simulated clock, a join that migrates the partition; kept values must not change, overwriting them in place must not affect fresh reads through other clients, and buffers passed to Put are scribbled over right after Put returns.",
+   note=NOTE + " In-process observation: the harness keeps the exact slices the API returned.", technique=SIM + "; retained-alias comparison after memory-reusing churn"),
  "C17": dict(level="exploration", design="DESIGN.md §8 C17",
    text="Seeded samples from boundary sets of every supported value type stored under keys of 0-255 arbitrary bytes through the embedded or cluster client and read back into the same type through the other client, and again after a member joined and partitions migrated (R 1-2); too long keys and entries of table size -1/0/+1/x2 must be rejected with the documented errors and leave neighbours intact. The simulator contributes replication, migration between write and read and the kill-from-outside watchdog that turns an endless loop or a panic into a reported violation.",
    note=NOTE + " The value space is sampled (input generation); the simulated part is replication/migration between the write and the read.", technique=SIM + "; typed round-trip oracle across replication and migration"),
